@@ -131,6 +131,13 @@ class Enc:
         self.raw_min = -(2 ** (self.bits - 1)) if self.signed else 0
         self.raw_max = 2 ** (self.bits - 1) - 1 if self.signed else 2 ** self.bits - 1
         self.duration = duration
+        self.sym_duration = None
+        if duration == "symbolic":
+            # the animation duration is an F32 field: a symbolic float32 in [2^-10, 2^17] s, widened exactly to float64
+            self.d32 = z3.FP("dur", z3.Float32())
+            self.sym_duration = pysym.SymFloat(z3.fpFPToFP(pysym.RNE, self.d32, pysym.F64))
+            self.dur_domain = z3.And(z3.fpGEQ(self.d32, z3.FPVal(2.0 ** -10, z3.Float32())),
+                                     z3.fpLEQ(self.d32, z3.FPVal(2.0 ** 17, z3.Float32())))
         self.lower, self.upper = self._range()
 
     def _range(self):
@@ -141,7 +148,7 @@ class Enc:
             hi = self.real_dec(self.raw_max)
             return lo, hi
         if k == "QuantizedTime":
-            return 0.0, self.duration
+            return 0.0, (self.sym_duration if self.sym_duration is not None else self.duration)
         return self.inst.lower, self.inst.upper
 
     def raw_term(self, u=None):
@@ -278,6 +285,9 @@ def run_cvc5(solver, timeout_s, var_name="u"):
             return "unsat", None, time.time() - t0
         if first == "sat":
             import re
+            mfp = re.search(r"\(fp\s+#b([01])\s+#b([01]+)\s+#b([01]+)\)", out)
+            if mfp:
+                return "sat", int(mfp.group(1) + mfp.group(2) + mfp.group(3), 2), time.time() - t0
             m = re.search(r"#b([01]+)|#x([0-9a-fA-F]+)", out)
             if m:
                 val = int(m.group(1), 2) if m.group(1) else int(m.group(2), 16)
@@ -350,6 +360,8 @@ def run_instance(key_json, obligation, timeout=300, exclude=(), duration=None, c
     inst = found.get(key)
     if inst is None:
         return {"status": "error", "error": f"instance {key} no longer present in the spec graph"}
+    if duration == "symbolic":
+        return _symbolic_duration(key, inst, obligation, timeout)
     e = Enc(key, inst, duration=duration)
     raw = e.raw_term()
     dec_t = e.dec(raw)
@@ -477,6 +489,89 @@ def _point_obligation(e: Enc, obligation, out, excluded_raws=()):
     return out
 
 
+def _symbolic_duration(key, inst, obligation, timeout):
+    """QuantizedTime with the duration itself symbolic (every float32 duration in [2^-10, 2^17] s)."""
+    e = Enc(key, inst, duration="symbolic")
+    # translator validation is done on the concrete-duration encodings of the sweep; here validate on 3 durations x 8 raws
+    for dv in (0.5, 8.25, 1000.0):
+        ec = Enc(key, inst, duration=dv)
+        raw = ec.raw_term()
+        d_t = ec.dec(raw)
+        n, bad = validate_translation(ec, d_t, ec.enc(d_t), npoints=12)
+        if bad:
+            return {"status": "error", "error": f"translator validation failed at duration {dv}: {bad[:2]}"}
+    out = {"queries": 0, "solver_s": 0.0, "encoded": e.encoded, "validated_points": 36, "replay_func": "replay",
+           "bounds": f"every float32 duration in [2^-10, 2^17] s" + (" x all 2^16 raw values" if obligation == "RT_SYMDUR" else ""),
+           "samples": [], "trusted": sorted(e.trusted), "known_hits": []}
+    dur = e.sym_duration
+    if obligation == "ENDS_SYMDUR":
+        top = e.dec(pysym.SymInt(z3.BitVecVal(e.raw_max, pysym.IW)))
+        bot = e.dec(pysym.SymInt(z3.BitVecVal(e.raw_min, pysym.IW)))
+        back_top = e.enc(top)
+        back_bot = e.enc(bot)
+        neg = [e.dur_domain, z3.Or(z3.Not(z3.fpEQ(top.t, dur.t)), z3.Not(z3.fpEQ(bot.t, pysym.fp_const(0.0))),
+                                   back_top.t != z3.BitVecVal(e.raw_max, pysym.IW),
+                                   back_bot.t != z3.BitVecVal(e.raw_min, pysym.IW))]
+        what = "an end of [0, duration] does not decode exactly / encode back"
+    else:
+        raw = e.raw_term()
+        d_t = e.dec(raw)
+        neg = [e.dur_domain, e.enc(d_t).t != raw.t]
+        what = "enc(dec(u)) != u"
+    s = z3.Solver()
+    for c in neg:
+        s.add(c)
+    t0 = time.time()
+    # portfolio: cvc5 binary first (half the budget), then z3
+    r, val, _dt = run_cvc5(s, timeout * 0.5, var_name="dur")
+    who = "cvc5"
+    model = None
+    if r == "unknown":
+        s.set("timeout", int(timeout * 0.5 * 1000))
+        r = str(s.check())
+        who = "z3"
+        if r == "sat":
+            model = s.model()
+    out["queries"] = 1
+    out["solver_s"] = round(time.time() - t0, 2)
+    out["decided_by"] = who
+    if r == "unsat":
+        out.update(status="proved", detail=f"unsat: no duration with {what}")
+        out["samples"] = [{"duration": "symbolic float32", "raw_max": e.raw_max}]
+        return out
+    if r == "sat":
+        import struct as _st
+        if model is not None:
+            dv = pysym.fp_to_py(model.eval(z3.fpFPToFP(pysym.RNE, e.d32, pysym.F64), model_completion=True))
+        else:
+            dv = _st.unpack("<f", _st.pack("<I", val))[0]
+        rawv = e.raw_max
+        if obligation != "ENDS_SYMDUR":
+            if model is None:      # cvc5 gave only the duration: find the raw value with a second, now easy, query
+                ec = Enc(key, inst, duration=dv)
+                rt = ec.raw_term()
+                s2 = z3.Solver()
+                s2.add(ec.enc(ec.dec(rt)).t != rt.t)
+                s2.set("timeout", 120000)
+                if str(s2.check()) != "sat":
+                    out.update(status="unknown", detail="cvc5 model could not be completed")
+                    return out
+                rawv = s2.model().eval(ec.u, model_completion=True).as_long()
+            else:
+                rawv = model.eval(e.u, model_completion=True).as_long()
+        else:
+            ec = Enc(key, inst, duration=dv)
+            if ec.real_dec(e.raw_max) == dv and ec.real_enc(dv) == e.raw_max:
+                rawv = e.raw_min
+        out.update(status="refuted", detail=f"{what} at duration={dv!r} raw={rawv}",
+                   counterexample={"key": list(key), "obligation": "ENDS" if obligation == "ENDS_SYMDUR" else "RT",
+                                   "raw": rawv, "duration": dv,
+                                   "detail": {"want": dv if rawv == e.raw_max else 0.0}})
+        return out
+    out.update(status="unknown", detail=f"solver returned {r} after {out['solver_s']}s")
+    return out
+
+
 def replay(cex):
     """Concrete replay on the real methods (no solver)."""
     key = tuple(cex["key"])
@@ -522,6 +617,14 @@ def obligations(tier, seed):
         durs = [None]
         if key[0] == "QuantizedTime":
             durs = DURATIONS if tier == "thorough" else DURATIONS[:4]
+            for ob, t in (("ENDS_SYMDUR", 300), ("RT_SYMDUR", 3000)):
+                if ob == "RT_SYMDUR" and tier == "quick":
+                    continue        # does not finish within the quick budget (unknown after 600 s): thorough only
+                obs.append(Ob(name=f"{name}_symbolic_duration__{ob}", module="harness.c10", func="run_instance", kind="call",
+                              timeout=t, covers=covers + ("hippolyzer.lib.base.llanim:QuantizedTime.decode",),
+                              note=f"{ob} for {key}: the animation duration itself symbolic (every float32 in [2^-10, 2^17] s)"
+                                   + (" x all raw values" if ob == "RT_SYMDUR" else ": both ends decode exactly and encode back"),
+                              args={"key_json": kj, "obligation": ob, "timeout": t, "duration": "symbolic"}))
         for dur in durs:
             suffix = "" if dur is None else f"_dur{str(dur).replace('.', 'p').replace('-', 'm')}"
             for ob in ("RT", "MONO", "ENDS", "ZERO", "SIDE"):
